@@ -32,6 +32,7 @@ RULE = (
     "he list; every shard begins with a thread stress (eight threads build their first error "
     "exceptions, six run their first failing exchange, GIL yielded at a third of the library'"
     "s statements)."
+    " One client receives 450 error responses in a row."
 )
 ASSUMPTIONS = [
     "an error response echoes the request's bindings (RFC 3416 4.2.x), tooBig may carry an empty list",
